@@ -1,4 +1,7 @@
 import Proofs.NamespaceC09
+import Proofs.NamespaceBook
+import Proofs.NamespaceErr
+import Proofs.NamespaceExample
 /-! C09 - versioned references resolve to exactly the named definition or fail cleanly (model level).
     `Ns.resolve` = `resolve_versioned_data_type`, `Ns.readObj` = `DSDLDefinition.read` (cache, lookup list minus self),
     `Ns.Den au Lb t d` = "t is the type of d read on its own against the lookup list Lb" (Proofs/NamespaceC09.lean). -/
@@ -100,6 +103,70 @@ theorem C09.nested_standalone (au : Bool) (Lb : List Def) (t : Ty) (d : Def) (h 
     obtain ⟨_, xs1, xs2, hr1, hr2, hl, _⟩ := h
     exact ⟨xs1, xs2, hr1, hr2, hl⟩
 
+/-- The cache is transparent for a whole call, whatever the order of the targets (`targets` is an arbitrary list here):
+    every type `_complete_read_function` returns - direct or transitive, read first-hand, taken from the cache, promoted or
+    reached through any referrer - is the stand-alone type of a definition object of the call, and every successful read
+    of that definition, in any state with a sound cache and against the lookup list with any keys removed, returns
+    exactly this type.  (`HypP`: the path of a file determines its (name, version); it follows from the accepted
+    directory rule, see `C09.files_transparent`.) -/
+theorem C09.history_transparent (au : Bool) (files : List FileEntry) (targets : List Def) (dirs : List Path) (L : List Def)
+    (d t : List Ty) (p : List Nat) (hL : collect false files dirs = .ok L) (H : HypP L targets)
+    (h : completeRead au files targets dirs = ⟨.ok (d, t), p⟩) :
+    ∀ x ∈ d ++ t, ∃ y, (y ∈ L ∨ y ∈ targets) ∧ Den au L x y ∧
+      ∀ (L' : List Def) (st : St) (t' : Ty), KeySub L L' → CacheOk (DenR au L) st → (readObj au L' y st).1 = .ok t' → t' = x := by
+  intro x hx
+  obtain ⟨y, hy, hd⟩ := completeRead_good hL H h x hx
+  exact ⟨y, hy, hd, fun L' st t' hL' hc hr => Den.unique (C09.standalone au L L' y st t' hL' hc hr) hd⟩
+
+/-- the same for `read_files` as it is called (no hypothesis: the directory rule has been checked by the call) -/
+theorem C09.files_transparent (files targets : List FileEntry) (roots lookups : List Path) (au : Bool) (d t : List Ty)
+    (p : List Nat) (ts : List Def) (hts : mapMDefs true targets = .ok ts)
+    (h : readFiles files targets roots lookups au = ⟨.ok (d, t), p⟩) :
+    ∀ x ∈ d ++ t, ∃ L y, collect false files (dedupPaths (lookups ++ ts.map Def.root ++ roots)) = .ok L ∧
+      (y ∈ L ∨ y ∈ ts) ∧ Den au L x y ∧
+      ∀ (L' : List Def) (st : St) (t' : Ty), KeySub L L' → CacheOk (DenR au L) st → (readObj au L' y st).1 = .ok t' → t' = x := by
+  rcases readFiles_inv hts h with ⟨_, rfl, rfl⟩ | ⟨L, hL, hc, hk, hu, _⟩
+  · intro x hx; cases hx
+  · intro x hx
+    obtain ⟨y, hy, hd, hr⟩ := C09.history_transparent au files _ _ L d t p hL (hypP_of_dirs hk hu) hc x hx
+    refine ⟨L, y, hL, ?_, hd, hr⟩
+    rcases hy with hy | hy
+    · exact Or.inl hy
+    · exact Or.inr (mem_sortDefs'.mp hy)
+
+/-- ... and for `read_namespace` -/
+theorem C09.namespace_transparent (files : List FileEntry) (root : Path) (lookups : List Path) (ac au : Bool) (d t : List Ty)
+    (p : List Nat) (ts : List Def) (hts : collect true files [root] = .ok ts)
+    (h : readNamespace files root lookups ac au = ⟨.ok (d, t), p⟩) :
+    ∀ x ∈ d ++ t, ∃ L y, collect false files (dedupPaths (lookups ++ [root])) = .ok L ∧
+      (y ∈ L ∨ y ∈ ts) ∧ Den au L x y ∧
+      ∀ (L' : List Def) (st : St) (t' : Ty), KeySub L L' → CacheOk (DenR au L) st → (readObj au L' y st).1 = .ok t' → t' = x := by
+  rcases readNamespace_inv hts h with ⟨_, rfl, rfl⟩ | ⟨L, hL, hc, hk, hu⟩
+  · intro x hx; cases hx
+  · intro x hx
+    obtain ⟨y, hy, hd, hr⟩ := C09.history_transparent au files _ _ L d t p hL
+      (hypP_of_dirs hk fun x hx => (hu x hx).fromDirs) hc x hx
+    exact ⟨L, y, hL, hy, hd, hr⟩
+
+/-- The order in which the targets are read does not matter: for two target lists that are permutations of each other, two
+    successful runs of `_complete_read_function` over the same lookup list return the same direct and the same transitive
+    list.  (`Hyp`: path determines (name, version), and (name, version) identifies a definition; both follow from the
+    accepted directory rule and `DistinctFileKeys`, `hyp_of_files`.) -/
+theorem C09.target_order_independent (au : Bool) (files : List FileEntry) (ts1 ts2 : List Def) (dirs : List Path) (L : List Def)
+    (d1 t1 d2 t2 : List Ty) (p1 p2 : List Nat) (hL : collect false files dirs = .ok L) (H : Hyp L (ts1 ++ ts2))
+    (hp : ts1.Perm ts2) (h1 : completeRead au files ts1 dirs = ⟨.ok (d1, t1), p1⟩)
+    (h2 : completeRead au files ts2 dirs = ⟨.ok (d2, t2), p2⟩) : d1 = d2 ∧ t1 = t2 :=
+  completeRead_order hL H hp h1 h2
+
+/-- An error of `read`, at whatever depth of the dependency chain it is raised, is a fault of one definition `y` reached
+    from the definition being read through a chain of exactly resolved references (`RefChain`), and it is a fault of
+    `y`'s own file (`LocalFault`: unparsable text, a statement violating a local rule, a reference of `y` that does not
+    resolve or names a service, a rule violated by the type assembled from `y`'s own fields) - the analogue, on error
+    classes, of `C17.path`: the blamed definition fails on its own. -/
+theorem C09.error_origin (au : Bool) (Lb L : List Def) (d : Def) (st : St) (e : Err) (hL : KeySub Lb L)
+    (h : (readObj au L d st).1 = .error e) : ∃ y, RefChain Lb d y ∧ LocalFault au Lb y e :=
+  readObj_err au Lb L d st hL e h
+
 section NonVacuity
 private def S : Text := ⟨false, ⟨[.prim 8], .sealed⟩, none⟩
 private def mk (n : String) (ma mi : Nat) : Def := ⟨false, ["w", n], ["w"], [n], n, ma, mi, none, S⟩
@@ -111,4 +178,14 @@ example : resolve L (mk "ns.Z" 1 0) ⟨"ns.B", 1, 0⟩ = .error .nameCollision :
 example : resolve L (mk "ns.Z" 1 0) ⟨"ns.C", 2, 0⟩ = .error .collision := by decide +kernel
 example : resolve (dropKey L (mk "ns.A" 1 0)) (mk "ns.A" 1 0) ⟨"ns.A", 1, 0⟩ = .error .undefinedType := by decide +kernel
 example : KeySub L (dropKey L (mk "ns.A" 1 0)) ∧ CacheOk (DenR false L) {} := ⟨(KeySub.refl L).drop _, fun _ _ h => by cases h⟩
+open Ns.Example in
+example := C09.files_transparent Example.fs [eA] [] [["w", "other"]] false [TA] [TB] [] [dA true] (by simp [mapMDefs, mkA]) evalFiles
+open Ns.Example in
+example := C09.namespace_transparent Example.fs ["w", "ns"] [["w", "other"]] true false [TA, TB] [] [] _ collectT evalNs
+open Ns.Example in
+example := C09.target_order_independent false Example.fs [dA true, dB true] [dB true, dA true] Example.dirs L3 _ _ _ _ _ _
+  collectL hypAB (List.Perm.swap _ _ _) evalFwd evalRev
+open Ns.Example in
+example : ∃ y, RefChain [dBg] (dA true) y ∧ LocalFault false [dBg] y .localInvalid :=
+  C09.error_origin false [dBg] [dBg] (dA true) {} _ (KeySub.refl _) evalErr
 end NonVacuity
